@@ -162,6 +162,17 @@ def check(ctx):
                f"{fcls_} built on ({cs_}, {ls_}): after reading the devices' members {len(changed_)} item(s) have other labels than the table published, e.g. "
                + "; ".join(f"{k}: {b} -> {a}" for k, b, a in changed_[:2]) + " - the live layout no longer is the published one: every later read and write of the item uses the edited enumeration",
                repo.method(fcls_, "all_automation_devices").loc, sample={"rule": "R10", "facade": fcls_, "platform": plat_, "items_watched": nw_} if plat_.startswith("inyt") else None)
+    # ... also on the log tables in which an item's writability differs from the platform's other versions (an item
+    # published read-only in two old versions): what the facade's construction leaves must be what THAT table publishes
+    for (plat_, cs_, ls_, fcls_), (r_, extra_) in sorted(_lar(repo, T, variants=True).items()):
+        if r_ is not None or extra_ is None:
+            continue
+        changed_, nw_ = extra_
+        n10_ += 1
+        w10_ += nw_
+        ctx.ob("R10", f"{fcls_}::{cs_}+{ls_}::as-published", not changed_,
+               f"{fcls_} built on ({cs_}, {ls_}): {len(changed_)} item(s) are not as the table publishes them, e.g. " + "; ".join(f"{k}: {b} -> {a}" for k, b, a in changed_[:2]) +
+               " - an item the table publishes read-only has become writable on the connected spa: commands are sent for a status byte", repo.method(fcls_, "all_automation_devices").loc)
     ctx.count("R10:facades read", n10_)
     ctx.floor("R10", "facades whose devices were read", n10_, 10)
     ctx.floor("R10", "label lists watched", w10_, 200)
